@@ -3382,6 +3382,9 @@ coap_handle_response_send_block(coap_session_t *session, coap_pdu_t *sent,
           coap_log_info("ignoring request to increase Block size, "
                         "(%u > %u)\n",
                         1 << (block.szx + 4), 1 << (lg_xmit->blk_size + 4));
+          /* The next block is numbered, cut and sent in the size in use */
+          block.szx = block.aszx = lg_xmit->blk_size;
+          block.bert = 0;
         } else if ((lg_xmit->offset + chunk) % ((size_t)1 << (block.szx + 4)) == 0) {
           /*
            * Recompute the block number of the previous packet given the
